@@ -29,35 +29,35 @@ import (
 const xt = "golang.org/x/text/encoding"
 
 var nativeGlobals = map[string]interface{}{
-	xt + "/charmap.CodePage437":          charmap.CodePage437,
-	xt + "/charmap.ISO8859_1":            charmap.ISO8859_1,
-	xt + "/charmap.ISO8859_2":            charmap.ISO8859_2,
-	xt + "/charmap.ISO8859_3":            charmap.ISO8859_3,
-	xt + "/charmap.ISO8859_4":            charmap.ISO8859_4,
-	xt + "/charmap.ISO8859_5":            charmap.ISO8859_5,
-	xt + "/charmap.ISO8859_6":            charmap.ISO8859_6,
-	xt + "/charmap.ISO8859_7":            charmap.ISO8859_7,
-	xt + "/charmap.ISO8859_8":            charmap.ISO8859_8,
-	xt + "/charmap.ISO8859_9":            charmap.ISO8859_9,
-	xt + "/charmap.ISO8859_10":           charmap.ISO8859_10,
-	xt + "/charmap.ISO8859_13":           charmap.ISO8859_13,
-	xt + "/charmap.ISO8859_14":           charmap.ISO8859_14,
-	xt + "/charmap.ISO8859_15":           charmap.ISO8859_15,
-	xt + "/charmap.ISO8859_16":           charmap.ISO8859_16,
-	xt + "/charmap.Windows1250":          charmap.Windows1250,
-	xt + "/charmap.Windows1251":          charmap.Windows1251,
-	xt + "/charmap.Windows1252":          charmap.Windows1252,
-	xt + "/charmap.Windows1256":          charmap.Windows1256,
-	xt + "/japanese.ShiftJIS":            japanese.ShiftJIS,
-	xt + "/japanese.EUCJP":               japanese.EUCJP,
-	xt + "/simplifiedchinese.GB18030":    simplifiedchinese.GB18030,
-	xt + "/traditionalchinese.Big5":      traditionalchinese.Big5,
-	xt + "/korean.EUCKR":                 korean.EUCKR,
-	xt + "/unicode.UTF8":                 unicode.UTF8,
-	xt + "/ianaindex.IANA":               ianaindex.IANA,
-	xt + "/ianaindex.MIME":               ianaindex.MIME,
-	xt + "/ianaindex.MIB":                ianaindex.MIB,
-	"golang.org/x/text/encoding.Nop":     encoding.Nop,
+	xt + "/charmap.CodePage437":              charmap.CodePage437,
+	xt + "/charmap.ISO8859_1":                charmap.ISO8859_1,
+	xt + "/charmap.ISO8859_2":                charmap.ISO8859_2,
+	xt + "/charmap.ISO8859_3":                charmap.ISO8859_3,
+	xt + "/charmap.ISO8859_4":                charmap.ISO8859_4,
+	xt + "/charmap.ISO8859_5":                charmap.ISO8859_5,
+	xt + "/charmap.ISO8859_6":                charmap.ISO8859_6,
+	xt + "/charmap.ISO8859_7":                charmap.ISO8859_7,
+	xt + "/charmap.ISO8859_8":                charmap.ISO8859_8,
+	xt + "/charmap.ISO8859_9":                charmap.ISO8859_9,
+	xt + "/charmap.ISO8859_10":               charmap.ISO8859_10,
+	xt + "/charmap.ISO8859_13":               charmap.ISO8859_13,
+	xt + "/charmap.ISO8859_14":               charmap.ISO8859_14,
+	xt + "/charmap.ISO8859_15":               charmap.ISO8859_15,
+	xt + "/charmap.ISO8859_16":               charmap.ISO8859_16,
+	xt + "/charmap.Windows1250":              charmap.Windows1250,
+	xt + "/charmap.Windows1251":              charmap.Windows1251,
+	xt + "/charmap.Windows1252":              charmap.Windows1252,
+	xt + "/charmap.Windows1256":              charmap.Windows1256,
+	xt + "/japanese.ShiftJIS":                japanese.ShiftJIS,
+	xt + "/japanese.EUCJP":                   japanese.EUCJP,
+	xt + "/simplifiedchinese.GB18030":        simplifiedchinese.GB18030,
+	xt + "/traditionalchinese.Big5":          traditionalchinese.Big5,
+	xt + "/korean.EUCKR":                     korean.EUCKR,
+	xt + "/unicode.UTF8":                     unicode.UTF8,
+	xt + "/ianaindex.IANA":                   ianaindex.IANA,
+	xt + "/ianaindex.MIME":                   ianaindex.MIME,
+	xt + "/ianaindex.MIB":                    ianaindex.MIB,
+	"golang.org/x/text/encoding.Nop":         encoding.Nop,
 	"golang.org/x/text/encoding.Replacement": encoding.Replacement,
 }
 
